@@ -100,8 +100,14 @@ def reshape(req):
     # loaded above when creating inventory objects.  The reshape method below
     # is responsible for ensuring that the resource providers and their
     # generations do not conflict.
-    allocation_objects = allocation.create_allocation_list(
-        context, allocations, consumers)
+    try:
+        allocation_objects = allocation.create_allocation_list(
+            context, allocations, consumers)
+    except Exception:
+        # Do not leave the consumers we auto-created behind when the request
+        # is rejected before we even try to write the allocations.
+        with excutils.save_and_reraise_exception():
+            allocation.delete_consumers(new_consumers_created)
 
     @db_api.placement_context_manager.writer
     def _update_consumers_and_create_allocations(ctx):
